@@ -10,7 +10,7 @@ def parseVals (toks : List String) : Array BV4 := (toks.map BV4.ofString).toArra
 
 def resetCase (s : St) (id mode : String) : St :=
   { s with caseId := id, mode := mode, vals := #[], net := #[], netTy := #[], netName := #[], xo := #[], env := #[], stim := "",
-           cycle := 0, ctEval := none, xvHist := #[], blit := none, regInit := #[], runIsAbs := true, absSeqNv := #[], absSeqXv := #[],
+           cycle := 0, ctEval := none, xvHist := #[], envHist := #[], blit := none, regInit := #[], runIsAbs := true, absSeqNv := #[], absSeqXv := #[],
            implNv := #[], absNv := #[], absXv := #[], haveAbs := false, unsafeReason := "", litStr := "", cases := s.cases + 1 }
 
 /-- `v <k> <op> a<i>… <num>… [str] -> <t> <w> <p>` | `… -> e` -/
@@ -59,6 +59,46 @@ def nodeKindName (s : St) (i : Nat) : String :=
   | .node k _ => match k with
     | .logic _ => "kind=logic" | .arith _ => "kind=arith" | .compare _ _ => "kind=compare" | .shift _ _ => "kind=shift"
     | .rewire _ => "kind=rewire" | .mux => "kind=mux" | .prio => "kind=prio" | .const _ => "kind=const"
+
+/-- C08, post-processed designs (`pxv` of a conc / concw case): what the simulator reports for the post-processed design under
+    stimulus `k` and the constants as written must not contradict, in any defined bit, the as-constructed netlist evaluated (by
+    the model, which `checkNodes` compared with the simulator node by node) under the same stimulus with every undefined
+    CONSTANT bit given a value: all 0, all 1 and random assignments.  Undefined constant bits are undefined sources like
+    undefined inputs; an optimisation that turns one into a defined bit of another operand is caught here. -/
+def checkPostConc (s : St) (k : Nat) (rest : List String) : St := Id.run do
+  let env := s.envHist.getD k #[]
+  let mut s := s
+  let hasX := s.net.any fun n => match n.kind with | .node (.const v) _ => !v.allDef | _ => false
+  let nsamp := if hasX then 5 else 1
+  let mut seed := lcg (s.caseId.toNat! * 7919 + k * 104729 + 17)
+  let mut refs : Array (List (Option BV4)) := #[]
+  for c in [0:nsamp] do
+    let mut net' : Array NetNode := #[]
+    for n in s.net do
+      match n.kind with
+      | .node (.const v) ty =>
+        let (cv, seed') :=
+          if c == 0 then (v.map fun b => if b == B4.x then B4.f else b, seed)
+          else if c == 1 then (v.map fun b => if b == B4.x then B4.t else b, seed)
+          else concretise seed v
+        seed := lcg seed'
+        net' := net'.push { n with kind := .node (.const cv) ty }
+      | _ => net' := net'.push n
+    refs := refs.push (evalNet env.toList net'.toList)
+  let refOf (c j : Nat) : BV4 := ((refs.getD c []).getD (s.xo.getD j 0) none).getD []
+  let agrees (j : Nat) : Bool :=
+    let cs := rest.getD j "?"
+    cs == "?" || (List.range nsamp).all fun c => BV4.compatB (BV4.ofString cs) (refOf c j)
+  for j in [0:s.vals.size] do
+    let cs := rest.getD j "?"
+    if cs == "?" then continue
+    s := { s with postValues := s.postValues + 1, compatBits := s.compatBits + (BV4.ofString cs).length * nsamp }
+    let r := s.vals[j]!
+    if !agrees j ∧ r.args.all agrees then
+      let c := ((List.range nsamp).find? fun c => !BV4.compatB (BV4.ofString cs) (refOf c j)).getD 0
+      let a := argsOf s (s.xvHist.getD k #[]) r j
+      s := s.propfail s!"stim={k} val={j} kind=post-processed op={opBase r.op} class=defined-bit-contradicted full={r.op} params={r.params} args=[{showArgs a}] post-processed={cs} as-constructed={BV4.toString ((s.xvHist.getD k #[]).getD j [])} reference={BV4.toString (refOf c j)} constants={if c == 0 then "x->0" else if c == 1 then "x->1" else "x->random"}: the post-processed design reports a defined bit that a completion of the undefined constant bits contradicts"
+  return s
 
 def step (s : St) (line : String) : St :=
   let toks := (line.trimAscii.toString.splitOn " ").filter (· ≠ "")
@@ -132,11 +172,11 @@ def step (s : St) (line : String) : St :=
   | ["cteval", k] => { s with ctEval := if k == "done" then none else some k.toNat! }
   | ["pv", k, bits] => { s with env := s.env.setIfInBounds k.toNat! (BV4.ofString bits) }
   | "nv" :: rest => { s with implNv := parseVals rest }
-  | ["post"] => { s with postRuns := s.postRuns + 1 }
+  | "post" :: _ => { s with postRuns := s.postRuns + 1 }
   | "posterr" :: rest =>
     let ops := ",".intercalate ((s.vals.toList.filter fun r => r.op != "pin" ∧ r.op != "lit").map fun r => opBase r.op)
     s.propfail s!"op=dag class=post-processing-throws what=[{(" ".intercalate rest).take 160}] ops=[{ops}]: design.postprocess() (or the simulation of its result) threw on a design the frontend built and the simulator evaluated"
-  | "pxv" :: k :: rest => Id.run do
+  | "pxv" :: k :: rest => if s.c08 then checkPostConc s k.toNat! rest else Id.run do
     -- the post-processed design on stimulus k: every tapped expression must still evaluate to what the design as constructed
     -- evaluated to (which was compared with the model and the definition above): no defined bit may differ, and a fully
     -- defined value must be reproduced exactly
@@ -157,7 +197,7 @@ def step (s : St) (line : String) : St :=
     return s
   | "xv" :: rest =>
     let xv := parseVals rest
-    let s := { s with xvHist := s.xvHist.push xv }
+    let s := { s with xvHist := s.xvHist.push xv, envHist := s.envHist.push s.env }
     let s := checkNodes s s.implNv
     let s := checkOps s xv (!s.c08)
     if s.mode == "seq" then
